@@ -289,6 +289,26 @@ def gen_follow_context_candidate(rng, terms, start='E'):
     return dict(items)
 
 
+def gen_follow_ring_grammar(rng, terms):
+    """LL(1) grammar whose FOLLOW sets depend on each other in a RING of 3-6 optional symbols:
+    E -> t N0 end;  Ni -> ti N(i+1) | e;  the last one refers to N0 again. What may follow one of them may follow all"""
+    k = rng.randint(3, 6)
+    end = rng.choice(terms)
+    leads = [t for t in terms if t != end] or terms
+    names = ['A', 'B', 'C', 'D', 'F', 'G'][:k]
+    rng.shuffle(names)
+    prods = {'E': [(rng.choice(terms), names[0], end)]}
+    for i, n in enumerate(names):
+        first = rng.choice(leads)
+        alts = [(first, names[(i + 1) % k]), ()]
+        others = [t for t in leads if t != first]
+        if others and rng.random() < 0.3:
+            alts.append((rng.choice(others),))
+        rng.shuffle(alts)
+        prods[n] = alts
+    return prods
+
+
 def hidden_cycle_grammar(rng, terms, order):
     """grammar with left recursion X -> N1..Nk X ... hidden behind k nullable symbols.
     `order` is a permutation of range(k+1): relative alphabetical order of the names of
